@@ -1,8 +1,10 @@
 //! The inner datastructure of a PrefixTrie that offers interior mutability.
 
+use std::sync::atomic::AtomicUsize;
 use std::{
     cell::UnsafeCell,
     ops::{Index, IndexMut},
+    sync::atomic::Ordering,
 };
 
 use crate::{to_right, Prefix};
@@ -34,7 +36,11 @@ impl<P, T> Node<P, T> {
 /// the inner data. If, however, you own an immutable reference, then you must guarantee that there
 /// is no other reference to the Table that potentially accesses the same node mutably. This interior
 /// mutability is only ever provided in `get_mut`.
-pub(crate) struct Table<P, T>(UnsafeCell<Vec<Node<P, T>>>);
+///
+/// The second field counts the nodes that hold a value. It lives next to the nodes (and is atomic)
+/// such that mutable views, which only hold a shared reference to the table and may live on
+/// different threads, can keep it up to date.
+pub(crate) struct Table<P, T>(UnsafeCell<Vec<Node<P, T>>>, AtomicUsize);
 
 // Safety:
 // - Sending a PrefixMap over thread boundary is fine. No-one besides us can have the raw pointer,
@@ -80,7 +86,10 @@ impl<P, T> IndexMut<usize> for Table<P, T> {
 
 impl<P: Clone, T: Clone> Clone for Table<P, T> {
     fn clone(&self) -> Self {
-        Self(UnsafeCell::new(self.as_ref().clone()))
+        Self(
+            UnsafeCell::new(self.as_ref().clone()),
+            AtomicUsize::new(self.count()),
+        )
     }
 }
 
@@ -89,12 +98,15 @@ where
     P: Prefix,
 {
     fn default() -> Self {
-        Self(UnsafeCell::new(vec![Node {
-            prefix: P::zero(),
-            value: None,
-            left: None,
-            right: None,
-        }]))
+        Self(
+            UnsafeCell::new(vec![Node {
+                prefix: P::zero(),
+                value: None,
+                left: None,
+                right: None,
+            }]),
+            AtomicUsize::new(0),
+        )
     }
 }
 
@@ -131,6 +143,34 @@ pub(crate) enum DirectionForInsert<P> {
 impl<P, T> Table<P, T> {
     pub(crate) fn into_inner(self) -> Vec<Node<P, T>> {
         self.0.into_inner()
+    }
+
+    /// The number of nodes that hold a value.
+    #[inline(always)]
+    pub(crate) fn count(&self) -> usize {
+        self.1.load(Ordering::Relaxed)
+    }
+
+    /// Record that a value was added to a node that had none.
+    #[inline(always)]
+    pub(crate) fn inc_count(&self) {
+        self.1.fetch_add(1, Ordering::Relaxed);
+    }
+
+    /// Record that a value was taken out of a node.
+    #[inline(always)]
+    pub(crate) fn dec_count(&self) {
+        self.1.fetch_sub(1, Ordering::Relaxed);
+    }
+
+    /// Record that all values were dropped.
+    pub(crate) fn reset_count(&mut self) {
+        *self.1.get_mut() = 0;
+    }
+
+    /// Get a mutable reference to a node together with the counter of values.
+    pub(crate) fn node_and_count(&mut self, idx: usize) -> (&mut Node<P, T>, &AtomicUsize) {
+        (&mut self.0.get_mut()[idx], &self.1)
     }
 
     /// *Safety*: You must ensure for the lifetime of 'a, that you will never construct a second
